@@ -8,6 +8,8 @@ package main
 
 import (
 	"bytes"
+	"crypto/sha256"
+	"encoding/hex"
 	"fmt"
 	"go/ast"
 	"go/parser"
@@ -254,6 +256,21 @@ func skeleton(fd *ast.FuncDecl, keep map[string]bool) []string {
 var out bytes.Buffer
 
 func emit(format string, a ...interface{}) { fmt.Fprintf(&out, format, a...) }
+
+// bodyDigest: SHA-256 of the function as go/printer prints it without its doc comment
+func bodyDigest(fd *ast.FuncDecl) string {
+	if fd == nil {
+		return "absent"
+	}
+	cp := *fd
+	cp.Doc = nil
+	var buf bytes.Buffer
+	if err := printer.Fprint(&buf, token.NewFileSet(), &cp); err != nil {
+		return "unprintable"
+	}
+	sum := sha256.Sum256(buf.Bytes())
+	return hex.EncodeToString(sum[:8])
+}
 
 func main() {
 	repo = os.Args[1]
@@ -565,6 +582,9 @@ func main() {
 				parts := strings.SplitN(k, " ", 2)
 				fd := funcs(parse(parts[0]))[parts[1]]
 				perFile[parts[0]] = append(perFile[parts[0]], "## "+parts[1])
+				// providers other than generic OIDC are outside the model: the whole body of every function their session lifecycle
+				// reaches is pinned (a digest of the printed syntax tree, comments left out), so that ANY change there is reported
+				perFile[parts[0]] = append(perFile[parts[0]], "#body sha256:"+bodyDigest(fd))
 				// conditions and returns only (calls are named by the conditions / returns that use them)
 				perFile[parts[0]] = append(perFile[parts[0]], skeleton(fd, allKeep)...)
 			}
